@@ -66,6 +66,11 @@ func verifC15IntParam(name string, def int) int {
 func VerifC15RingPosition() {
 	key := verifBytes("key", verifChoice("keylen", 5))
 	verifAssert(computeRingPosition(key) == verifC15Pos(key), "position-is-first-two-digest-bytes-big-endian")
+	// the position is a function of the name alone: a free name that happens to spell "a" lands where "a" lands
+	if len(key) == 1 {
+		pa := computeRingPosition([]byte("a"))
+		verifAssert(verifOr(key[0] != 'a', computeRingPosition(key) == pa), "position-depends-on-the-name-only")
+	}
 	verifCover("end")
 }
 
@@ -220,7 +225,7 @@ type verifC15World struct {
 
 // verifC15MakeWorld: nd destinations with pairwise distinct (host, instance). Host names are concrete
 // (param "hosts", one letter per destination, e.g. "ab" or "aa" for two instances on one server), the
-// instance is absent or one free byte, every replica position is free (MD5 uninterpreted on every input;
+// instance is absent or one free byte (free choice per destination, or fixed by param "insts"), every replica position is free (MD5 uninterpreted on every input;
 // bound to the named variables "ringpos"), and one metric name with a free position.
 func verifC15MakeWorld(nd, R int) *verifC15World {
 	verifMD5Uninterpreted()
@@ -232,7 +237,11 @@ func verifC15MakeWorld(nd, R int) *verifC15World {
 	for d := 0; d < nd; d++ {
 		s := verifC15Spec{}
 		s.host = "h" + hosts[d:d+1]
-		s.inst = verifC15Name("inst", verifChoice("instlen", 2))
+		if insts := verifParam("insts"); insts != "" { // fixed presence pattern, e.g. "010"
+			s.inst = verifC15Name("inst", int(insts[d]-'0'))
+		} else {
+			s.inst = verifC15Name("inst", verifChoice("instlen", 2))
+		}
 		for e := 0; e < d; e++ {
 			if w.specs[e].host == s.host {
 				verifAssume(w.specs[e].inst != s.inst)
